@@ -192,6 +192,9 @@ func structOf(fields []Field) reflect.Type {
 	sf := []reflect.StructField{{Name: "Struct", Type: structMarker, Anonymous: true}}
 	for i, f := range fields {
 		tag := f.Name
+		if (i+len(fields))%4 == 1 {
+			tag = strings.ToUpper(f.Name) // names are matched case-insensitively, on both sides
+		}
 		if f.Name == "" {
 			tag = ",typeOnly"
 		}
@@ -268,6 +271,9 @@ func (rt *runtimeT) materialiseBuilt(d *FnDecl) error {
 	out, err := valueSetOf(d.Out)
 	if err != nil {
 		return err
+	}
+	if len(d.Out) == 0 {
+		out = nil // no results: BuildFunc(in, nil, cb); an EMPTY input list stays an explicit zero-length set
 	}
 	cb := func(i, o *am.ValueSet) error {
 		rt.nexec++
@@ -861,7 +867,12 @@ func runScenario(sc *Scenario, seed uint64, wd *int64) (terms []string, cats []s
 			}
 		}
 		withRecover(func() {
-			f, err := am.NewFunc(sc.Funcs[op.Target].raw, defs...)
+			all := defs
+			if sc.Funcs[op.Target].Once {
+				// a run-once target keeps its option when it is built with defaults
+				all = append(defs[:len(defs):len(defs)], am.FuncOnce())
+			}
+			f, err := am.NewFunc(sc.Funcs[op.Target].raw, all...)
 			if err != nil {
 				preErr[oi] = true
 			} else {
